@@ -553,11 +553,14 @@ func iterateSliceOrArrayInt(context *Context, v reflect.Value) {
 	}
 }
 
+var typeFloat32 = reflect.TypeOf(float32(0))
+
 func iterateSliceOrArrayFloat32(context *Context, v reflect.Value) {
 	elementCount := v.Len()
 	data := make([]uint8, elementCount*4)
 	for i := 0; i < elementCount; i++ {
-		elem := math.Float32bits(float32(v.Index(i).Float()))
+		// Value.Float() widens to float64, which turns a signaling NaN into a quiet NaN.
+		elem := math.Float32bits(v.Index(i).Convert(typeFloat32).Interface().(float32))
 		data[i*4] = uint8(elem)
 		data[i*4+1] = uint8(elem >> 8)
 		data[i*4+2] = uint8(elem >> 16)
